@@ -6,6 +6,7 @@ import (
 	"fmt"
 	"math"
 	"math/rand"
+	"sync/atomic"
 
 	"github.com/yaricom/goNEAT/v4/neat"
 	"github.com/yaricom/goNEAT/v4/neat/genetics"
@@ -50,6 +51,8 @@ type EvoScenario struct {
 	// one ReadPopulation restores from that text (evolve -> store -> restore -> evolve on)
 	RestoreAt int
 	restoring bool
+	// CancelAtEnd: after the last epoch one more turnover is started and cancelled while the species reproduce (C16)
+	CancelAtEnd bool
 }
 
 func (sc *EvoScenario) brief() map[string]interface{} {
@@ -223,6 +226,35 @@ func runScenario(c *Ctx, sc *EvoScenario, mon EvoMonitor) {
 		if err != nil {
 			return
 		}
+	}
+	if sc.CancelAtEnd {
+		// one more turnover whose context is cancelled while the species reproduce: whatever it returns, nothing may still
+		// be working on the population once NextEpoch has returned (the reads below race with any straggler)
+		cctx, cancel := context.WithCancel(context.Background())
+		var n int32
+		after := int32(1 + c.G.Intn(3))
+		genetics.VerifHooks = genetics.VerifHookSet{ReproduceStart: func(s *genetics.Species, p *genetics.Population, generation int) {
+			if atomic.AddInt32(&n, 1) == after {
+				cancel()
+			}
+		}}
+		assignFitness(c.G, sc.Fitness, sc.Epochs, pop)
+		cerr := ex.NextEpoch(neat.NewContext(cctx, sc.Opts), sc.Epochs, pop)
+		cancel()
+		if cerr != nil {
+			c.Count("epochs.cancelled_mid_reproduction", 1)
+		} else {
+			c.Count("epochs.cancel_came_too_late", 1)
+		}
+		sum := 0
+		for _, org := range pop.Organisms {
+			sum += len(snapGenome(org.Genotype).Genes)
+		}
+		for _, sp := range pop.Species {
+			sum += len(sp.Organisms) + sp.ExpectedOffspring
+		}
+		sum += len(pop.Innovations())
+		_ = sum
 	}
 }
 
